@@ -62,14 +62,20 @@ for (tname, ttype, nd) in [("u32", "uint32_t", "nondet_u32"), ("i32", "int32_t",
 import re as _re
 from vx.lift import read_source, LiftError
 TPP = "libs/pika/concurrency/include/pika/concurrency/detail/tagged_ptr_pair.hpp"
-def _const(pat, default):
+def _tpp_consts():
+    # every `static constexpr T name = value;` of the header becomes a macro `name` (a constant added by an edit comes along)
     try:
-        m = _re.search(pat, read_source(TPP))
-        return m.group(1).replace("'", "") if m else default
+        src = read_source(TPP)
     except LiftError:
-        return default
-TPP_DEFS = ["LEFT_TAG_INDEX=" + _const(r"left_tag_index = (\d+);", "3"), "RIGHT_TAG_INDEX=" + _const(r"right_tag_index = (\d+);", "7"),
-            "PTR_MASK=" + _const(r"ptr_mask = (0x[0-9a-f']+);", "0xffffffffffff") + "ull"]
+        return []
+    out = []
+    for m in _re.finditer(r"static constexpr\s+[\w:]+\s+(\w+)\s*=\s*([^;]+);", src):
+        v = m.group(2).replace("'", "").strip()
+        if _re.fullmatch(r"0x[0-9a-fA-F]+|\d+", v):
+            v += "ull"
+        out.append("%s=(%s)" % (m.group(1), v))
+    return out
+TPP_DEFS = _tpp_consts()
 TPP_RULES = [
     Sub(r"reinterpret_cast<\s*(?:Left|Right)\s*\*>", "(ptr_t)", None),
     Sub(r"reinterpret_cast<\s*compressed_ptr_t\s*>", "(compressed_ptr_t)", None),
